@@ -410,21 +410,23 @@ pub fn rk_exact_encodings(v: f64) -> Vec<(u32, &'static str)> {
         let i = v as i32;
         out.push((((i << 2) as u32) | 2, "int"));
     }
-    // integer x100: the stored integer is v*100 exactly
-    let h = v * 100.0;
-    if !neg_zero && h.fract() == 0.0 && h >= -(1 << 29) as f64 && h <= ((1 << 29) - 1) as f64 && (h / 100.0) == v {
-        // the decoder computes (h as integer)/100 in f64 (or integer division when divisible)
-        let i = h as i32;
-        out.push((((i << 2) as u32) | 3, "int100"));
+    // integer x100: an integer i with i / 100.0 == v (what the decoder computes)
+    let i = (v * 100.0).round();
+    if !neg_zero && i >= -(1 << 29) as f64 && i <= ((1 << 29) - 1) as f64 && i / 100.0 == v {
+        out.push(((((i as i32) << 2) as u32) | 3, "int100"));
     }
-    // float: low 34 bits zero
+    // double: low 34 bits zero
     let bits = v.to_bits();
     if bits & 0x3_FFFF_FFFF == 0 {
         out.push(((bits >> 32) as u32, "flt"));
     }
-    let hb = h.to_bits();
-    if hb & 0x3_FFFF_FFFF == 0 && h.is_finite() && h / 100.0 == v && !(h == 0.0 && neg_zero != h.is_sign_negative()) {
-        out.push((((hb >> 32) as u32) | 1, "flt100"));
+    // double x100: a double h with low 34 bits zero and h / 100.0 == v
+    for h in [v * 100.0, (v * 100.0).round()] {
+        let hb = h.to_bits();
+        if hb & 0x3_FFFF_FFFF == 0 && h.is_finite() && h / 100.0 == v && (h / 100.0).is_sign_negative() == v.is_sign_negative() {
+            out.push((((hb >> 32) as u32) | 1, "flt100"));
+            break;
+        }
     }
     out
 }
